@@ -4,7 +4,16 @@ import json, os
 V = os.path.dirname(os.path.dirname(os.path.abspath(__file__)))
 props = [json.loads(l)["id"] for l in open(os.path.join(V, "properties.jsonl"))]
 
+EXPL_NOTE = "Trusted: the Coq rules specification Rules.v/FenSpec.v/Oracle.v (readable, validated in both directions by this run), ExtrOcamlBasic extraction + 120-line OCaml driver, Go harness generators; the engine itself is used to walk games (positions the spec rejects are counted and skipped)."
 CHECKS = {
+ "C01": dict(cat="exploration", text="Differential validation of the real generator against the Coq rules-of-chess specification (Rules.legal, extracted): per position the sorted legal move lists must be identical (missing, extra and repeated moves show), engine perft (batch and on-demand) must equal Rules.perft. The refinement theorem legal_moves_exact is stated in DESIGN.md; its proof (bitboard model MovegenImpl ⊑ Rules) is in progress, so the level claimed is what decides the property today.", note=EXPL_NOTE, technique="differential testing vs extracted Coq rules specification", ref="6 C01"),
+ "C02": dict(cat="exploration", text="For every legal move of every generated position the FEN after DoMove is compared with FenSpec.print (Rules.make p m) computed by the extracted Coq specification (placement incl. castling rook / ep pawn / promotion piece, side, rights, ep square, clocks).", note=EXPL_NOTE, technique="differential testing vs extracted Coq rules specification", ref="6 C02"),
+ "C03": dict(cat="exploration", text="Runtime monitor on the real engine: random nested do/undo and null-move excursions on every position of random games with a snapshot of every public observable before and after. (Coq model PosImpl with excursion_restores is in progress.)", note="Trusted: Go harness; the known game-phase clamp finding is matched by field name and reported as KNOWN-FINDING.", technique="exploration of do/undo excursions on the real engine", ref="6 C03"),
+ "C04": dict(cat="exploration", text="Runtime monitor on the real engine: after every move of random games all incremental getters vs a fresh position from the current FEN and vs sums of per-piece values over the board; key as a function of (placement, side, rights, ep) across histories and FENs.", note="Trusted: Go harness; known game-phase clamp finding matched by field name.", technique="exploration: incremental vs fresh vs recomputed on the real engine", ref="6 C04"),
+ "C08": dict(cat="exploration", text="Engine-internal monitor of on-demand vs batch generation under random generator histories for all modes x evasion x UsePromNonQuiet, partition and evasion clauses, HasLegalMove; plus batch pseudo-legal list vs Rules.pseudo (extracted Coq spec).", note=EXPL_NOTE, technique="exploration of generator histories + differential testing vs Coq spec", ref="6 C08"),
+ "C09": dict(cat="exploration", text="HasCheck, IsAttacked (64 squares x 2 colours, panics caught), AttacksTo, GivesCheck, IsLegalMove/WasLegalMove of the real engine vs the extracted Coq specification incl. the two en-passant conventions. (Coq refinement proof AttacksImpl ⊑ Rules in progress.)", note=EXPL_NOTE, technique="differential testing vs extracted Coq rules specification", ref="6 C09"),
+ "C06": dict(cat="proof", text="Coq theorems (properties/C06.v) over AlphaBeta.v, a transcription of rootSearch/search/qsearch with only sound techniques: fail-soft contract of every call for all trees, windows, plies and orderings (relational semantics with arbitrary permutation per node visit), root value = minimax and best move attains it, value independent of the sound switches with or without quiescence nodes. Tied to the code by (a) real searches under random sound switch vectors vs an independent brute-force minimax and (b) real depth-d trees evaluated by the executable model inside Coq.", note="Trusted: Coq kernel; hand-written model AlphaBeta.v (tied by correspondence, not derived); brute-force reference in the harness; evaluation assumed within +-(10000-130) (boundedb, checked on every dumped tree).", technique="Coq proof over hand-written search model + correspondence on real trees + brute-force minimax monitor", ref="6 C06"),
+ "C11": dict(cat="proof", text="Coq theorems (properties/C11.v) over TTImpl.v (function-by-function model of tt.go with explicit int8/int16 wrap): refinement of every operation sequence to a key-indexed abstract map with the eviction rule (probe_sound), last-put characterisation, never-foreign, value/mate round trips, replacement policy, count/hashfull exactness, capacity formula, age saturation; literal readings the code violates are kept as refuted twins (key 0 sentinel, MoveNone value loss, age wrap). Tied to the code by random operation sequences run on the real table and on the model inside Coq, plus direct monitors.", note="Trusted: Coq kernel, std++ gmap (no axioms), hand-written model tied by correspondence; float Log2 exactness for sizes <= 65536 MB assumed (sizes 1..64 MB exercised).", technique="Coq refinement proof + operation-sequence correspondence", ref="6 C11"),
  "C18": dict(cat="proof",
    text="Coq theorems (properties/C18.v) that every dumped lookup table equals its coordinate-geometry definition: sliders for every square and EVERY occupancy (finite vm_compute sweep over all mask subsets lifted by subset-completeness and ray-walk-extensionality lemmas), leapers, pawns, rays, between, masks, distances, sqTo, castling-by-square, and ShiftBitboard for every 64-bit board in all 8 directions; tables are re-dumped from the engine built from /repo on every run, the hand-written lookup model is tied by a correspondence run, and an exhaustive Go monitor supplies failing inputs.",
    note="Trusted: Coq kernel + vm_compute, primitive Uint63 literals for reading the dump, the dump hook (types.VerifMagics etc.), Go harness. Package initialisation code is observed (its results are what the theorems are about), not modelled.",
